@@ -379,7 +379,7 @@ def make_sphinx_link(eng):
     if "sphinx_" not in CR.R:
         from symx.instrument import load_instrumented
 
-        CR.R["sphinx_"] = load_instrumented(["myst_parser.mdit_to_docutils.sphinx_"])["myst_parser.mdit_to_docutils.sphinx_"]
+        CR.R["sphinx_"] = load_instrumented(["myst_parser.mdit_to_docutils.sphinx_"], using=CR.R)["myst_parser.mdit_to_docutils.sphinx_"]
     c = CR.Choice(eng)
     state = {}
     eng.witness_fn = lambda m: dict(state)
@@ -419,6 +419,62 @@ def run_sphinx_link(dest, real=False):
     return 1
 
 
+# ------------------------------------------------------------ L12: HTML blocks / inline HTML under every html extension combination
+
+HTML_SNIPPETS = [
+    '<div class="admonition">\n<input disabled>\n</div>',
+    '<div class="admonition">\n<p class="title">T</p>\n<details open><span hidden>x</span></details>\n</div>',
+    '<div class="admonition" name>\nbody\n</div>',
+    '<div class>\nx\n</div>',
+    '<img src="a.png" hidden alt>',
+    '<img src>',
+    '<img src="a.png" width="1" height=2 align=nowhere class="a b">',
+    '<img src="a.png"><img src="b.png">',
+    '<div class="admonition">unclosed',
+    '<![x',
+    '<![CDATA[x]]> <![foo]> <![if IE]>',
+    '<!DOCTYPE html [<!ELEMENT x>]>',
+    '<a href=>t</a> <b',
+    '&#xZZ; &bogus; &#99999999999;',
+    '<div class="admonition"><div class="admonition"><img src="i.png"></div></div>',
+    '<?pi x?><!-- c --><script>if (a < b) {}</script>',
+    'para with <img src="inline.png" alt> and <span hidden>inline</span> html',
+    '<div class="admonition">\n\n```{note}\nnested directive\n```\n\n</div>',
+]
+
+
+def run_html(i, exts, real=False):
+    text = "before\n\n" + HTML_SNIPPETS[i] + "\n\nafter\n"
+    return CR.publish(text, {"myst_enable_extensions": exts, "report_level": 5}, real=real)
+
+
+def make_html(eng):
+    setup()
+    c = CR.Choice(eng, width=31)
+    state = {}
+    eng.witness_fn = lambda m: dict(state)
+
+    def body():
+        from docutils import nodes
+
+        c.reset()
+        i = c.choose(len(HTML_SNIPPETS))
+        exts = [e for e, on in (("html_image", c.choose(2)), ("html_admonition", c.choose(2))) if on]
+        state.update(html=i, exts=exts)
+        try:
+            doc, warn = run_html(i, exts)
+        except Exception as exc:  # noqa
+            eng.fail("pipeline-raises", "HTML %r with %r: %s" % (HTML_SNIPPETS[i], exts, _where(exc)))
+        paras = [p_.astext() for p_ in doc.findall(nodes.paragraph)]
+        eng.require("before" in paras and "after" in paras, "html-disturbs-neighbours", "paragraphs %r" % (paras,))
+        eng.passed(1)
+        if exts:
+            eng.note("fault-reported")
+        return "ok"
+
+    return body
+
+
 # ------------------------------------------------------------ soup
 
 
@@ -450,6 +506,8 @@ def families(tier, seed):
     F.append(Family("L7-9,11-faults", make_renderer_faults, "inventory / slug function / Jinja / circular substitution / directive run() failing with %d exception classes" % len(EXCS), nontrivial="fault-reported", max_forks=100000))
     F.append(Family("L9b-substitution-graphs", make_subs, "two substitution keys from %r x value shapes %r (self / mutual references behind nested lists and quotes), docutils front end" % (SUB_KEYS, SUB_SHAPES),
                     nontrivial="fault-reported", max_forks=100000))
+    F.append(Family("L12-html", make_html, "%d HTML snippets (valueless attributes on nested tags, unclosed elements, marked sections, bad references, nested convertible blocks) x the four html_image/html_admonition combinations through the pipeline" % len(HTML_SNIPPETS),
+                    nontrivial="fault-reported", max_forks=100000))
     F.append(Family("L10-sphinx-link", make_sphinx_link, "SphinxRenderer.render_link_unknown with destinations incl. over-long path components and NUL", nontrivial="fault-reported", max_forks=100000))
     soup = "#[](>-`{}:\na"
     for n in ([3] if q else [3, 4]):
@@ -475,6 +533,12 @@ def replay(label, witness):
         if "dest" in witness:
             run_sphinx_link(witness["dest"], real=True)
             return None
+        if "html" in witness:
+            from docutils import nodes
+
+            doc, warn = run_html(witness["html"], witness["exts"], real=True)
+            paras = [p_.astext() for p_ in doc.findall(nodes.paragraph)]
+            return None if ("before" in paras and "after" in paras) else ("C01/html-disturbs-neighbours", "paragraphs %r" % (paras,))
         if "subs" in witness:
             k1, k2, sh1, sh2 = witness["subs"]
             doc, warn = run_subs(k1, k2, sh1, sh2, real=True)
@@ -488,7 +552,7 @@ def replay(label, witness):
 
         tb = traceback.extract_tb(e.__traceback__)
         where = tb[-1].name if tb else "?"
-        what = witness.get("site") or witness.get("fault") or ("dest" in witness and "sphinx-link") or ("subs" in witness and "substitutions") or "document"
+        what = witness.get("site") or witness.get("fault") or ("dest" in witness and "sphinx-link") or ("subs" in witness and "substitutions") or ("html" in witness and "html block") or "document"
         return ("C01/exception:%s@%s" % (type(e).__name__, where), "%s %r raised %s: %s" % (what, witness, type(e).__name__, str(e)[:200]))
 
 
